@@ -4,6 +4,7 @@ import (
 	"fmt"
 	"go/token"
 	"go/types"
+	"sort"
 	"strings"
 
 	"golang.org/x/tools/go/ssa"
@@ -188,4 +189,83 @@ func ruleNONDET(c *Ctx) {
 	}
 	c.Ok(rule, "scan", token.NoPos, "scanned %d functions for clock/random/environment/runtime calls, go statements and select", n)
 	c.MinCount(rule, "", 3)
+}
+
+// initFields returns the struct fields that receive slice values while package-level variables
+// are initialised (init functions of the scope packages): storage reachable from them is
+// package-level data.
+func (c *Ctx) initFields() map[*types.Var]bool {
+	out := map[*types.Var]bool{}
+	for _, p := range c.genScope() {
+		rel, _ := relPkg(p.Types)
+		sp := c.SSAPkg(rel)
+		if sp == nil {
+			continue
+		}
+		var inits []*ssa.Function
+		if f := sp.Func("init"); f != nil {
+			inits = append(inits, f)
+			inits = append(inits, f.AnonFuncs...)
+		}
+		for _, f := range inits {
+			for _, b := range f.Blocks {
+				for _, ins := range b.Instrs {
+					if st, ok := ins.(*ssa.Store); ok {
+						if fa, ok := st.Addr.(*ssa.FieldAddr); ok && hasSliceStorage(st.Val.Type(), 0) {
+							if fld := fieldOf(fa); fld != nil {
+								out[fld] = true
+							}
+						}
+					}
+				}
+			}
+		}
+	}
+	return out
+}
+
+// GLOBALS(append): appending to a slice that shares its backing array with package-level data
+// (a sub-slice of a table built at init time) overwrites that data for the rest of the process.
+func ruleGLOBALAPPEND(c *Ctx) {
+	const rule = "GLOBALS(append)"
+	a := c.aliasAnalysis()
+	G := c.initFields()
+	n := 0
+	for _, f := range c.scopeFuncs() {
+		if f.Name() == "init" || (f.Parent() != nil && f.Parent().Name() == "init") {
+			continue
+		}
+		ord := map[string]int{}
+		for _, b := range f.Blocks {
+			for _, ins := range b.Instrs {
+				call, ok := ins.(*ssa.Call)
+				if !ok {
+					continue
+				}
+				bi, ok := call.Common().Value.(*ssa.Builtin)
+				if !ok || bi.Name() != "append" || len(call.Common().Args) == 0 {
+					continue
+				}
+				n++
+				var hit []string
+				for rt := range a.roots(call.Common().Args[0]) {
+					switch rt.kind {
+					case rGlobal:
+						hit = append(hit, rt.String())
+					case rField:
+						if G[rt.obj.(*types.Var)] {
+							hit = append(hit, rt.String()+" (initialised at package init)")
+						}
+					}
+				}
+				if len(hit) == 0 {
+					continue
+				}
+				sort.Strings(hit)
+				key := ordKey(ord, ssaFuncKey(f)+":append("+normalizePhi(vpath(call.Common().Args[0]))+")")
+				c.Bad(rule, key, call.Pos(), "append to a slice that may share its backing array with package-level data {%s}: spare capacity of the shared array is overwritten and a later generation in the same process sees the modified table", strings.Join(hit, ", "))
+			}
+		}
+	}
+	c.Ok(rule, "scan", token.NoPos, "%d append calls on the generation path checked against %d init-time slice fields and all package-level variables", n, len(G))
 }
